@@ -937,6 +937,9 @@ def run(ck: Check) -> None:
         "types named Query / Mutation are skipped by the generator by design (Gen/GraphqlTables.skippedTypeNames); documents name their root type differently",
         "a JSON object conforming to an object type supplies every field (nullable ones possibly null); input objects may leave nullable fields out; values of a custom scalar are values of its configured Python type",
         "the pydantic-v1-style output is executed on pydantic.v1 of pydantic 2.13; msgspec output is not executable here and is not part of this oracle",
+        "ordering model: the named types are taken in the order of the generator's own build_graphql_schema(sdl).type_map (graphql-core's lexicographic sort is a parameter); MAX_RECURSION_COUNT of sort_data_models is not modelled (the schemas here need a handful of passes); one output module",
+        "Union template: the template variables the model gives a value are `description` and those parse_union sets from parser options (generated table unionTemplateVars); the theorems quantify over ALL settings of the variables, the campaigns pass no per-union extra_template_data",
+        "a right-hand side of an alias statement is evaluated when the module is imported, a class-member annotation is not (`from __future__ import annotations` heads every generated module); names inside a string literal are forward references",
     ]
     guard.campaign(ck, campaign_parse_field, 12 if quick else 100, 40)
     guard.campaign(ck, c17_bridge.campaign_annotation, 20 if quick else 160, 40, sys.modules[__name__])
